@@ -68,12 +68,31 @@ theorem PendInvEx.weaken {st : St} (h : PendInv st) (ex : Option Spec) : PendInv
   · exact Or.inl hq
   · cases hex
 
-theorem tryLoad_redirect_ne (w : World) (o : Opts) (r : Req) (to : Spec)
-    (h : tryLoad w o r = .redirect to) : to ≠ r.spec := by
-  unfold tryLoad at h
+theorem moduleOutcome_not_redirect (w : World) (o : Opts) (r : Req) (f to : Spec) :
+    moduleOutcome w o r f ≠ .redirect to := by
+  unfold moduleOutcome
+  simp only
+  split <;> (intro h; cases h)
+
+theorem moduleOutcome_module_cls (w : World) (o : Opts) (r : Req) (f f' : Spec) (cls : Class)
+    (h : moduleOutcome w o r f = .module f' cls) : ∀ k ref, cls ≠ .err k ref := by
+  unfold moduleOutcome at h
   simp only at h
   split at h
-  · split at h
+  · cases h
+  · rename_i hcls
+    simp only [Outcome.module.injEq] at h
+    obtain ⟨_, rfl⟩ := h
+    intro k ref heq
+    exact hcls k ref heq
+
+theorem tryLoad_redirect_ne (w : World) (o : Opts) (r : Req) (to : Spec)
+    (h : tryLoad w o r = .redirect to) : to ≠ r.spec := by
+  unfold tryLoad tryLoad' at h
+  simp only at h
+  split at h
+  · simp only at h
+    split at h
     · cases h
     · split at h
       · cases h
@@ -85,31 +104,42 @@ theorem tryLoad_redirect_ne (w : World) (o : Opts) (r : Req) (to : Spec)
         simp [heq]
   · cases h
   · cases h
-  · split at h <;> cases h
-  · split at h
+  · simp only at h; split at h <;> cases h
+  · simp only at h
+    split at h
     · cases h
-    · split at h <;> cases h
+    · exact absurd h (moduleOutcome_not_redirect w o r _ to)
+  · split at h
+    · simp only at h
+      split at h
+      · cases h
+      · exact absurd h (moduleOutcome_not_redirect w o r _ to)
+    · simp only at h; split at h <;> cases h
+    · cases h
 
 theorem tryLoad_module_cls (w : World) (o : Opts) (r : Req) (f : Spec) (cls : Class)
     (h : tryLoad w o r = .module f cls) : ∀ k ref, cls ≠ .err k ref := by
-  unfold tryLoad at h
+  unfold tryLoad tryLoad' at h
   simp only at h
   split at h
-  · split at h
+  · simp only at h
+    split at h
     · cases h
     · split at h <;> cases h
   · cases h
   · cases h
-  · split at h <;> cases h
-  · split at h
+  · simp only at h; split at h <;> cases h
+  · simp only at h
+    split at h
     · cases h
-    · split at h
+    · exact moduleOutcome_module_cls w o r _ f cls h
+  · split at h
+    · simp only at h
+      split at h
       · cases h
-      · rename_i hcls
-        simp only [Outcome.module.injEq] at h
-        obtain ⟨_, rfl⟩ := h
-        intro k ref heq
-        exact hcls k ref heq
+      · exact moduleOutcome_module_cls w o r _ f cls h
+    · simp only at h; split at h <;> cases h
+    · cases h
 
 /-- settle the slot at `tgt` with a non-pending value: the exception (if `tgt` is the request
 itself) is discharged -/
@@ -138,26 +168,48 @@ theorem checkSpecifier_ex (st : St) (req tgt : Spec) (h : PendInvEx (some req) s
   · simp only [heq, if_false]
     exact checkSpecifier_ne st req tgt heq h
 
+theorem PendInvEx.logRequest {ex : Option Spec} {st : St} (h : PendInvEx ex st) (w : World) (o : Opts) (r : Req) :
+    PendInvEx ex (logRequest w o r st) := by
+  unfold Build.logRequest
+  simp only
+  split
+  · exact fun s a hs => h s a hs
+  · exact fun s a hs => h s a hs
+
+@[simp] theorem pending_logRequest (w : World) (o : Opts) (r : Req) (st : St) :
+    (logRequest w o r st).pending = st.pending := by
+  unfold logRequest
+  simp only
+  split <;> rfl
+
+theorem PendInvEx.recordChecksum {ex : Option Spec} {st : St} (h : PendInvEx ex st) (w : World) (cls : Class) (f : Spec)
+    (hash : Option Nat) : PendInvEx ex (recordChecksum w cls f hash st) := by
+  unfold Build.recordChecksum
+  split
+  · exact h.of_same rfl rfl
+  · exact h
+
+@[simp] theorem pending_recordChecksum (w : World) (cls : Class) (f : Spec) (hash : Option Nat) (st : St) :
+    (recordChecksum w cls f hash st).pending = st.pending := by
+  unfold recordChecksum
+  split <;> rfl
+
 /-- **one iteration**: processing the head request re-establishes the invariant -/
 theorem stepPending_inv (w : World) (o : Opts) (r : Req) (st : St)
     (h : PendInvEx (some r.spec) st) : PendInv (stepPending w o r st) := by
-  have h0 : PendInvEx (some r.spec) (logCall st r false) := fun s a hs => h s a hs
+  have h0 : PendInvEx (some r.spec) (logRequest w o r st) := h.logRequest w o r
   unfold stepPending
-  simp only
+  generalize logRequest w o r st = st0 at h0
   rcases htl : tryLoad w o r with ⟨spec, isAsset⟩ | ⟨f, cls⟩ | ⟨to⟩ | ⟨e⟩
   · -- external
-    simp only
-    have h2 := (checkSpecifier_ex (logCall st r false) r.spec spec h0).markRoot r.isRoot spec
-    generalize Build.markRoot (checkSpecifier (logCall st r false) r.spec spec) r.isRoot spec = st2 at h2
+    simp only [applyOutcome]
+    have h2 := (checkSpecifier_ex st0 r.spec spec h0).markRoot r.isRoot spec
+    generalize Build.markRoot (checkSpecifier st0 r.spec spec) r.isRoot spec = st2 at h2
     rcases hsl : st2.slot spec with _ | sl
-    · simp only [hsl]
-      exact settle st2 r.spec spec _ (by intro a hh; cases hh) h2
+    · exact settle st2 r.spec spec _ (by intro a hh; cases hh) h2
     · cases sl with
-      | pending b =>
-        simp only [hsl]
-        exact settle st2 r.spec spec _ (by intro a hh; cases hh) h2
+      | pending b => exact settle st2 r.spec spec _ (by intro a hh; cases hh) h2
       | module m =>
-        simp only [hsl]
         intro s a hs
         rcases h2 s a hs with hq | hex
         · exact Or.inl hq
@@ -168,7 +220,6 @@ theorem stepPending_inv (w : World) (o : Opts) (r : Req) (st : St)
             cases hs
           · cases hex
       | err e =>
-        simp only [hsl]
         intro s a hs
         rcases h2 s a hs with hq | hex
         · exact Or.inl hq
@@ -179,45 +230,49 @@ theorem stepPending_inv (w : World) (o : Opts) (r : Req) (st : St)
             cases hs
           · cases hex
   · -- module
-    simp only
+    simp only [applyOutcome]
     have hcls := tryLoad_module_cls w o r f cls htl
-    have h2 := (checkSpecifier_ex (logCall st r false) r.spec f h0).markRoot r.isRoot f
-    generalize Build.markRoot (checkSpecifier (logCall st r false) r.spec f) r.isRoot f = st2 at h2
+    have h2 := ((checkSpecifier_ex st0 r.spec f h0).markRoot r.isRoot f).recordChecksum w cls f
+      (if (tryLoad' w o r).2 then w.hashReload.lookup r.spec else w.hashUse.lookup r.spec)
+    generalize Build.recordChecksum w cls f _ (Build.markRoot (checkSpecifier st0 r.spec f) r.isRoot f) = st2 at h2
     have h3 := (good_visitModule w o cls (w.contentOf r.spec)).inv _ st2 h2
     exact settle _ r.spec f _ (visitModule_slot_not_pending w o cls (w.contentOf r.spec) st2 hcls) h3
   · -- redirect
-    simp only
+    simp only [applyOutcome]
     have hne : r.spec ≠ to := fun heq => tryLoad_redirect_ne w o r to htl heq.symm
     exact (good_load w o _ _).inv none _ (checkSpecifier_ne _ r.spec to hne h0)
   · -- error
-    simp only
+    simp only [applyOutcome]
     exact settle _ r.spec e.spec _ (by intro a hh; cases hh) (checkSpecifier_ex _ r.spec e.spec h0)
 
 /-- queue entries other than the head survive an iteration -/
 theorem stepPending_mono (w : World) (o : Opts) (r : Req) (st : St) (q : Req) (hq : q ∈ st.pending) :
     q ∈ (stepPending w o r st).pending := by
   unfold stepPending
-  simp only
+  have hq0 : q ∈ (logRequest w o r st).pending := by simpa using hq
+  generalize logRequest w o r st = st0 at hq0
   rcases htl : tryLoad w o r with ⟨spec, isAsset⟩ | ⟨f, cls⟩ | ⟨to⟩ | ⟨e⟩
-  · simp only
-    have : q ∈ (Build.markRoot (checkSpecifier (logCall st r false) r.spec spec) r.isRoot spec).pending := by
+  · simp only [applyOutcome]
+    have : q ∈ (Build.markRoot (checkSpecifier st0 r.spec spec) r.isRoot spec).pending := by
       unfold Build.markRoot St.addResolvedRoot
       split
-      · split <;> simpa using hq
-      · simpa using hq
-    generalize Build.markRoot (checkSpecifier (logCall st r false) r.spec spec) r.isRoot spec = st2 at this
+      · split <;> simpa using hq0
+      · simpa using hq0
+    generalize Build.markRoot (checkSpecifier st0 r.spec spec) r.isRoot spec = st2 at this
     split <;> simpa using this
-  · simp only
-    have : q ∈ (Build.markRoot (checkSpecifier (logCall st r false) r.spec f) r.isRoot f).pending := by
+  · simp only [applyOutcome]
+    have : q ∈ (Build.recordChecksum w cls f (if (tryLoad' w o r).2 then w.hashReload.lookup r.spec else w.hashUse.lookup r.spec)
+        (Build.markRoot (checkSpecifier st0 r.spec f) r.isRoot f)).pending := by
+      simp only [pending_recordChecksum]
       unfold Build.markRoot St.addResolvedRoot
       split
-      · split <;> simpa using hq
-      · simpa using hq
+      · split <;> simpa using hq0
+      · simpa using hq0
     have := (good_visitModule w o cls (w.contentOf r.spec)).mono _ q this
     simpa using this
-  · simp only
-    exact (good_load w o _ _).mono _ q (by simpa using hq)
-  · simp only
-    simpa using hq
+  · simp only [applyOutcome]
+    exact (good_load w o _ _).mono _ q (by simpa using hq0)
+  · simp only [applyOutcome]
+    simpa using hq0
 
 end DG.Build
